@@ -8,7 +8,7 @@
    comments are kept and are invisible when they are ignored; after the last item the reader reports
    the end of the input.  Any number of lines, no bound. *)
 From Coq Require Import List Bool Arith Ascii String NArith Lia.
-From FV Require Import SplitLine Text Reader ReaderLaws ReaderJoin ReaderItem.
+From FV Require Import SplitLine Text Reader ReaderLaws ReaderJoin ReaderItem SemiLaws.
 Import ListNotations.
 Close Scope string_scope.
 
@@ -38,14 +38,21 @@ Inductive lay :=
 | LOne (line : text) (lab : option N) (nm : option text) (p : text)
 | LCont (line : text) (lab : option N) (nm : option text) (p1 : text) (ms : list (text * text)) (bn pn : text)
 | LContC (line : text) (lab : option N) (nm : option text) (p1 : text) (es : list celem) (bn pn : text)
+| LSemi (line : text) (lab : option N) (nm : option text) (p1 : text) (rest : list text)
+        (os : list (text * option N * option text))
 | LCom (b c : text)
 | LBlank.
+
+(* the further statements of a ';'-joined line, as items *)
+Definition mk_other (a b : nat) (o : text * option N * option text) : ritem :=
+  RLine (fst (fst o)) (snd (fst o)) (snd o) a b.
 
 Definition phys (l : lay) : list text :=
   match l with
   | LOne line _ _ _ => [line]
   | LCont line _ _ _ ms bn pn => line :: mids ms ++ [last_line bn pn]
   | LContC line _ _ _ es bn pn => line :: map phys_e es ++ [last_line bn pn]
+  | LSemi line _ _ _ _ _ => [line]
   | LCom b c => [b ++ bang :: c]
   | LBlank => [[]]
   end.
@@ -70,6 +77,16 @@ Definition good (l : lay) : Prop :=
       stripped (last_line bn pn) /\
       strip (p1 ++ etext es ++ pn) <> [] /\
       mem_char ";"%char (strip (p1 ++ etext es ++ pn)) = false
+  | LSemi line lab nm p1 rest os =>
+      let body := join_semi (p1 :: rest) in
+      stripped line /\ line <> [] /\ starts_with ["#"%char] (lstrip line) = false /\
+      (exists l1, extract_label line = (lab, l1) /\ extract_construct_name l1 = (nm, body)) /\
+      plain body /\ simple body /\ strip body = body /\ body <> [] /\ rest <> [] /\
+      Forall (fun p => mem_char ";"%char p = false) (p1 :: rest) /\
+      strip p1 <> [] /\ mem_char ";"%char (strip p1) = false /\
+      (forall a b, other_parts rest a b = Some (map (mk_other a b) os)) /\
+      Forall (fun o => mem_char ";"%char (fst (fst o)) = false) os /\
+      List.length os <= List.length line
   | LCom b c => blanks b /\ stripped (b ++ bang :: c)
   | LBlank => True
   end.
@@ -79,15 +96,24 @@ Variable ign : bool.
 
 (* what get_source_item hands out for a layout element (the item it returns, then what it leaves in
    the queue: the comments met between the lines of a continued statement) *)
-Definition produced (l : lay) (lc : nat) : ritem * list ritem :=
+Definition rawp (l : lay) (lc : nat) : ritem * list ritem :=
   match l with
   | LOne _ lab nm p => (RLine (strip p) lab nm (S lc) (S lc), [])
   | LCont _ lab nm p1 ms _ pn =>
       (RLine (strip (p1 ++ List.concat (map snd ms) ++ pn)) lab nm (S lc) (S (S lc) + List.length ms), [])
   | LContC _ lab nm p1 es _ pn =>
       (RLine (strip (p1 ++ etext es ++ pn)) lab nm (S lc) (S (S lc) + List.length es), ecoms es (S (S lc)))
+  | LSemi _ lab nm p1 rest _ => (RLine (join_semi (p1 :: rest)) lab nm (S lc) (S lc), [])
   | LCom _ c => (RComment (bang :: c) (S lc) (S lc) false, [])
   | LBlank => (RComment [] (S lc) (S lc) false, [])
+  end.
+
+(* ... and what next() makes of it: a line item holding several statements is cut at its ';' -- the
+   first statement is handed out, the others are put at the front of the queue *)
+Definition produced (l : lay) (lc : nat) : ritem * list ritem :=
+  match l with
+  | LSemi _ lab nm p1 _ os => (RLine (strip p1) lab nm (S lc) (S lc), map (mk_other (S lc) (S lc)) os)
+  | _ => rawp l lc
   end.
 
 (* ignored comments are dropped when they reach the front of the queue *)
@@ -278,37 +304,72 @@ Proof. destruct l; cbn; lia. Qed.
 
 Lemma gsi_lay l rest lc : good l ->
   get_source_item (stt (phys l ++ rest) lc [])
-  = (Some (fst (produced l lc)), stt rest (lc + List.length (phys l)) (snd (produced l lc)))
-  /\ (match fst (produced l lc) with RLine t _ _ _ _ => mem_char ";"%char t = false | RCpp _ _ _ => False | _ => True end).
+  = (Some (fst (rawp l lc)), stt rest (lc + List.length (phys l)) (snd (rawp l lc))).
 Proof.
-  destruct l as [line lab nm p|line lab nm p1 ms bn pn|line lab nm p1 es bn pn|b c|]; cbn [good phys produced fst snd].
+  destruct l as [line lab nm p|line lab nm p1 ms bn pn|line lab nm p1 es bn pn|line lab nm p1 rs os|b c|];
+    cbn [good phys rawp fst snd].
   - intros [SL [NE [NH [[l1 [EL EN]] [P [NS SEMI]]]]]]. cbn [app List.length]. rewrite Nat.add_1_r.
-    split; [apply (gsi_one line lab nm p l1 rest lc SL NE NH EL EN P NS)|exact SEMI].
+    apply (gsi_one line lab nm p l1 rest lc SL NE NH EL EN P NS).
   - intros [SL [NE [NH [[l1 [EL EN]] [P1 [OK [Bn [Pn [PNE [NB [SLL [NS SEMI]]]]]]]]]]]].
     cbn [app List.length]. rewrite <- app_assoc. cbn [app].
     rewrite (item_of_continued_statement ign line lab l1 nm p1 ms bn pn rest lc [] SL NE NH EL EN P1 OK Bn Pn PNE NB SLL NS).
-    split; [|exact SEMI]. f_equal. f_equal. rewrite app_length, mids_length. cbn [List.length]. lia.
+    f_equal. f_equal. rewrite app_length, mids_length. cbn [List.length]. lia.
   - intros [SL [NE [NH [[l1 [EL EN]] [P1 [G [Bn [Pn [PNE [NB [SLL [NS SEMI]]]]]]]]]]]].
     cbn [app List.length]. rewrite <- app_assoc. cbn [app].
     rewrite (gsi_contc line lab l1 nm p1 es bn pn rest lc SL NE NH EL EN P1 G Bn Pn PNE NB SLL NS).
-    split; [|exact SEMI]. f_equal. f_equal. rewrite app_length, map_length. cbn [List.length]. lia.
-  - intros [B SL]. cbn [app List.length]. rewrite Nat.add_1_r.
-    split; [apply (gsi_comment b c rest lc B SL)|exact I].
-  - intros _. cbn [app List.length]. rewrite Nat.add_1_r. split; [apply gsi_blank|exact I].
+    f_equal. f_equal. rewrite app_length, map_length. cbn [List.length]. lia.
+  - cbv zeta. intros [SL [NE [NH [[l1 [EL EN]] [P [SI [SB [BNE _]]]]]]]]. cbn [app List.length]. rewrite Nat.add_1_r.
+    rewrite <- SB at 1. apply (gsi_one line lab nm _ l1 rest lc SL NE NH EL EN P). now rewrite SB.
+  - intros [B SL]. cbn [app List.length]. rewrite Nat.add_1_r. apply (gsi_comment b c rest lc B SL).
+  - intros _. cbn [app List.length]. rewrite Nat.add_1_r. apply gsi_blank.
 Qed.
 
 (* items waiting in the queue: comments, and statement items without ';' *)
 Definition pend_ok (it : ritem) : Prop :=
   match it with RLine t _ _ _ _ => mem_char ";"%char t = false | RCpp _ _ _ => False | RComment _ _ _ _ => True end.
 
+(* what next() makes of the item get_source_item returned: cut at ';' *)
+Definition split_ok (ri : ritem) (rq : list ritem) (pi : ritem) (pq : list ritem) : Prop :=
+  match ri with
+  | RLine t lab nm a b => forall src n, split_item t lab nm a b ri (stt src n rq) = (Some pi, stt src n pq)
+  | RComment _ _ _ _ => pi = ri /\ pq = rq
+  | RCpp _ _ _ => False
+  end.
+
+Lemma split_ok_plain it q : pend_ok it -> split_ok it q it q.
+Proof.
+  destruct it as [t lab nm a b|t a b il|t a b]; cbn [pend_ok split_ok]; [|auto|auto].
+  intros D src n. unfold split_item. rewrite (semi_split_none _ D). reflexivity.
+Qed.
+
 Lemma ecoms_pend es lc : Forall pend_ok (ecoms es lc).
 Proof. revert lc. induction es as [|e r IH]; intros lc; [constructor|]. destruct e; cbn [ecoms]; try apply IH. constructor; [exact I|apply IH]. Qed.
 
-Lemma produced_pend l lc : good l -> pend_ok (fst (produced l lc)) /\ Forall pend_ok (snd (produced l lc)).
+Lemma others_pend a b os : Forall (fun o => mem_char ";"%char (fst (fst o)) = false) os ->
+  Forall pend_ok (map (mk_other a b) os).
+Proof. induction 1 as [|o r H F IH]; cbn [map]; constructor; [exact H|exact IH]. Qed.
+
+Lemma split_lay l lc : good l ->
+  split_ok (fst (rawp l lc)) (snd (rawp l lc)) (fst (produced l lc)) (snd (produced l lc))
+  /\ pend_ok (fst (produced l lc)) /\ Forall pend_ok (snd (produced l lc))
+  /\ kept (fst (produced l lc)) = kept (fst (rawp l lc)).
 Proof.
-  intros G. destruct (gsi_lay l [] lc G) as [_ K]. split.
-  - destruct (fst (produced l lc)); [exact K|exact I|contradiction].
-  - destruct l; cbn [produced snd]; try constructor. apply ecoms_pend.
+  destruct l as [line lab nm p|line lab nm p1 ms bn pn|line lab nm p1 es bn pn|line lab nm p1 rs os|b c|];
+    cbn [good rawp produced fst snd].
+  - intros [_ [_ [_ [_ [_ [_ SEMI]]]]]]. repeat split; [apply split_ok_plain; exact SEMI|exact SEMI|constructor].
+  - intros [_ [_ [_ [_ [_ [_ [_ [_ [_ [_ [_ [_ SEMI]]]]]]]]]]]].
+    repeat split; [apply split_ok_plain; exact SEMI|exact SEMI|constructor].
+  - intros [_ [_ [_ [_ [_ [_ [_ [_ [_ [_ [_ [_ SEMI]]]]]]]]]]]].
+    repeat split; [apply split_ok_plain; exact SEMI|exact SEMI|apply ecoms_pend].
+  - cbv zeta. intros [_ [_ [_ [_ [_ [SI [_ [_ [RNE [NOS [SP1 [SEM1 [OP [OSF _]]]]]]]]]]]]]].
+    repeat split; [|exact SEM1|apply others_pend; exact OSF].
+    cbn [split_ok]. intros src n. unfold split_item.
+    rewrite (semi_split_join (p1 :: rs) ltac:(discriminate) NOS SI).
+    destruct rs as [|r0 rs']; [contradiction|].
+    destruct (strip p1) as [|c0 t0] eqn:E; [contradiction|].
+    rewrite (OP (S lc) (S lc)). cbn [r_fifo st]. rewrite app_nil_r. reflexivity.
+  - intros _. repeat split; constructor.
+  - intros _. repeat split; constructor.
 Qed.
 
 Lemma ecoms_length es : forall k, List.length (ecoms es k) <= List.length es.
@@ -316,33 +377,38 @@ Proof.
   induction es as [|e r IH]; intros k; [cbn; lia|].
   destruct e; cbn [ecoms List.length]; specialize (IH (S k)); lia.
 Qed.
-Lemma produced_queue_short l lc : List.length (snd (produced l lc)) < List.length (phys l).
+Lemma raw_queue_short l lc : List.length (snd (rawp l lc)) < List.length (phys l).
 Proof.
-  destruct l; cbn [produced snd List.length phys]; try lia.
+  destruct l; cbn [rawp snd List.length phys]; try lia.
   rewrite app_length, map_length. cbn [List.length]. pose proof (ecoms_length es (S (S lc))). lia.
 Qed.
 
-(* ---- the next delivered item, from a queue of pending items and a list of layout elements *)
+(* ---- the next delivered item, from a queue of pending items and a list of layout elements:
+        (what get_source_item / the queue hands to next(), what next() hands out, the rest) *)
 Fixpoint first_pend (pend : list ritem) : option (ritem * list ritem) :=
   match pend with
   | [] => None
   | it :: r => if kept it then Some (it, r) else first_pend r
   end.
 
-Fixpoint first_lay (ls : list lay) (lc : nat) : option (ritem * list ritem * list lay * nat) :=
+Definition nxt := (ritem * list ritem * ritem * list ritem * list lay * nat)%type.
+
+Fixpoint first_lay (ls : list lay) (lc : nat) : option nxt :=
   match ls with
   | [] => None
   | l :: r =>
       let lc' := lc + List.length (phys l) in
-      match first_pend (fst (produced l lc) :: snd (produced l lc)) with
-      | Some (it, q) => Some (it, q, r, lc')
-      | None => first_lay r lc'
-      end
+      if kept (fst (rawp l lc)) then
+        Some (fst (rawp l lc), snd (rawp l lc), fst (produced l lc), snd (produced l lc), r, lc')
+      else match first_pend (snd (rawp l lc)) with
+           | Some (it, q) => Some (it, q, it, q, r, lc')
+           | None => first_lay r lc'
+           end
   end.
 
-Definition first_gen (pend : list ritem) (ls : list lay) (lc : nat) : option (ritem * list ritem * list lay * nat) :=
+Definition first_gen (pend : list ritem) (ls : list lay) (lc : nat) : option nxt :=
   match first_pend pend with
-  | Some (it, q) => Some (it, q, ls, lc)
+  | Some (it, q) => Some (it, q, it, q, ls, lc)
   | None => first_lay ls lc
   end.
 
@@ -372,7 +438,7 @@ Lemma next_raw_gen : forall ls pend lc fuel, Forall good ls ->
   List.length pend + List.length (flat_map phys ls) < fuel ->
   next_raw fuel (stt (flat_map phys ls) lc pend) =
   match first_gen pend ls lc with
-  | Some (it, q, r, lc') => (Some it, stt (flat_map phys r) lc' q)
+  | Some (ri, rq, _, _, r, lc') => (Some ri, stt (flat_map phys r) lc' rq)
   | None => (None, stt [] (end_count ls lc) [])
   end.
 Proof.
@@ -384,15 +450,15 @@ Proof.
     pose proof (next_raw_pend pend fuel (flat_map phys (l :: r)) lc ltac:(cbn in LT; lia)) as NP.
     destruct (first_pend pend) as [[it q]|]; [exact NP|]. destruct NP as [f [E1 E2]]. rewrite E1.
     destruct f as [|f]; [cbn in LT; lia|]. cbn [flat_map next_raw r_fifo st].
-    destruct (gsi_lay l (flat_map phys r) lc Gl) as [E _]. rewrite E. cbn [first_lay end_count].
-    set (main := fst (produced l lc)). set (q0 := snd (produced l lc)). set (lc' := lc + List.length (phys l)).
+    rewrite (gsi_lay l (flat_map phys r) lc Gl). cbn [first_lay end_count].
+    set (main := fst (rawp l lc)). set (q0 := snd (rawp l lc)). set (lc' := lc + List.length (phys l)).
     specialize (IH q0 lc' f Gr).
-    cbn [first_pend]. destruct main as [t lab nm a b|t a b il|t a b] eqn:EM; cbn [kept].
+    destruct main as [t lab nm a b|t a b il|t a b] eqn:EM; cbn [kept].
     + reflexivity.
     + cbn [r_ign st]. destruct ign; cbn [negb]; [|reflexivity].
       rewrite IH.
       * unfold first_gen. destruct (first_pend q0) as [[it' q']|]; reflexivity.
-      * assert (LQ : List.length q0 < List.length (phys l)) by (apply produced_queue_short).
+      * assert (LQ : List.length q0 < List.length (phys l)) by (apply raw_queue_short).
         cbn [flat_map] in LT. rewrite app_length in LT. lia.
     + reflexivity.
 Qed.
@@ -412,50 +478,61 @@ Qed.
 Lemma first_lay_spec : forall ls lc, Forall good ls ->
   match first_lay ls lc with
   | None => items ls lc = []
-  | Some (it, q, r, lc') => items ls lc = it :: keep q ++ items r lc' /\ Forall pend_ok q /\ Forall good r /\ pend_ok it
+  | Some (ri, rq, pi, pq, r, lc') =>
+      split_ok ri rq pi pq /\ items ls lc = pi :: keep pq ++ items r lc' /\ Forall pend_ok pq /\ Forall good r
   end.
 Proof.
   induction ls as [|l r IH]; intros lc G; [reflexivity|]. inversion G as [|x y Gl Gr]; subst.
   cbn [first_lay items]. unfold item.
-  destruct (produced_pend l lc Gl) as [P1 P2].
-  pose proof (first_pend_spec (fst (produced l lc) :: snd (produced l lc)) (Forall_cons _ P1 P2)) as FP.
-  destruct (first_pend (fst (produced l lc) :: snd (produced l lc))) as [[it q]|].
-  - destruct FP as [E [Fq Pi]]. rewrite E. cbn [app]. repeat split; auto.
-  - rewrite FP. cbn [app]. apply IH. exact Gr.
+  destruct (split_lay l lc Gl) as [SO [P1 [P2 KK]]].
+  destruct (kept (fst (rawp l lc))) eqn:K.
+  - split; [exact SO|]. cbn [keep filter]. rewrite KK. cbn [app]. repeat split; auto.
+  - (* an ignored comment: nothing is cut, the queue is the raw queue *)
+    assert (PR : produced l lc = rawp l lc).
+    { destruct l; try reflexivity. cbn [rawp fst kept] in K. discriminate. }
+    rewrite PR in *. cbn [keep filter]. rewrite K. fold (keep (snd (rawp l lc))).
+    pose proof (first_pend_spec (snd (rawp l lc)) P2) as FP.
+    destruct (first_pend (snd (rawp l lc))) as [[it q]|].
+    + destruct FP as [E [Fq Pi]]. rewrite E. cbn [app]. split; [apply split_ok_plain; exact Pi|]. repeat split; auto.
+    + rewrite FP. cbn [app]. apply IH. exact Gr.
 Qed.
 
 Lemma first_gen_spec pend ls lc : Forall pend_ok pend -> Forall good ls ->
   match first_gen pend ls lc with
   | None => keep pend ++ items ls lc = []
-  | Some (it, q, r, lc') =>
-      keep pend ++ items ls lc = it :: keep q ++ items r lc' /\ Forall pend_ok q /\ Forall good r /\ pend_ok it
+  | Some (ri, rq, pi, pq, r, lc') =>
+      split_ok ri rq pi pq /\ keep pend ++ items ls lc = pi :: keep pq ++ items r lc' /\ Forall pend_ok pq /\ Forall good r
   end.
 Proof.
   intros FP G. unfold first_gen. pose proof (first_pend_spec pend FP) as S1.
   destruct (first_pend pend) as [[it q]|].
-  - destruct S1 as [E [Fq Pi]]. rewrite E. cbn [app]. repeat split; auto.
+  - destruct S1 as [E [Fq Pi]]. rewrite E. cbn [app]. split; [apply split_ok_plain; exact Pi|]. repeat split; auto.
   - rewrite S1. cbn [app]. apply first_lay_spec. exact G.
 Qed.
 
+Lemma phys_length_pos' l : 0 < List.length (phys l).
+Proof. destruct l; cbn; lia. Qed.
 Lemma flat_map_phys_length ls : List.length ls <= List.length (flat_map phys ls).
 Proof.
   induction ls as [|l r IH]; [reflexivity|]. cbn [flat_map List.length]. rewrite app_length.
-  pose proof (phys_length_pos l). lia.
+  pose proof (phys_length_pos' l). lia.
 Qed.
 
 Lemma next_item_gen ls pend lc : Forall pend_ok pend -> Forall good ls ->
   next_item (stt (flat_map phys ls) lc pend) =
   match first_gen pend ls lc with
-  | Some (it, q, r, lc') => (Some it, stt (flat_map phys r) lc' q)
+  | Some (_, _, pi, pq, r, lc') => (Some pi, stt (flat_map phys r) lc' pq)
   | None => (None, stt [] (end_count ls lc) [])
   end.
 Proof.
   intros FP G. unfold next_item. cbn [r_src r_filo r_fifo st List.length].
   rewrite (next_raw_gen ls pend lc _ G) by lia.
   pose proof (first_gen_spec pend ls lc FP G) as SP.
-  destruct (first_gen pend ls lc) as [[[[it q] r] lc']|]; [|reflexivity].
-  destruct SP as [_ [_ [_ D]]]. destruct it as [t lab nm a b|t a b il|t a b]; [|reflexivity|contradiction].
-  unfold split_item. rewrite (semi_split_none _ D). reflexivity.
+  destruct (first_gen pend ls lc) as [[[[[[ri rq] pi] pq] r] lc']|]; [|reflexivity].
+  destruct SP as [SO _]. destruct ri as [t lab nm a b|t a b il|t a b]; cbn [split_ok] in SO.
+  - apply SO.
+  - destruct SO as [-> ->]. reflexivity.
+  - contradiction.
 Qed.
 
 (* ---- the whole file, from any line count and with any queue of pending items *)
@@ -466,20 +543,31 @@ Proof.
   induction fuel as [|f IH]; intros ls pend lc FP G LT; [lia|].
   cbn [read_all]. rewrite (next_item_gen ls pend lc FP G).
   pose proof (first_gen_spec pend ls lc FP G) as SP.
-  destruct (first_gen pend ls lc) as [[[[it q] r] lc']|].
-  - destruct SP as [A [B [C _]]]. rewrite A. f_equal. apply IH; [exact B|exact C|]. rewrite A in LT. cbn in LT. lia.
+  destruct (first_gen pend ls lc) as [[[[[[ri rq] pi] pq] r] lc']|].
+  - destruct SP as [_ [A [B C]]]. rewrite A. f_equal. apply IH; [exact B|exact C|]. rewrite A in LT. cbn in LT. lia.
   - now rewrite SP.
 Qed.
 
 Lemma keep_length l : List.length (keep l) <= List.length l.
 Proof. induction l as [|x r IH]; [reflexivity|]. cbn [keep filter]. fold (keep r). destruct (kept x); cbn; lia. Qed.
 
-Lemma items_length : forall ls lc, List.length (items ls lc) <= List.length (flat_map phys ls).
+(* no more items than characters and lines *)
+Lemma item_length l lc : good l -> List.length (item l lc) <= List.length (List.concat (phys l)) + List.length (phys l).
 Proof.
-  induction ls as [|l r IH]; intros lc; [reflexivity|]. cbn [items flat_map]. rewrite !app_length.
-  specialize (IH (lc + List.length (phys l))). unfold item.
-  pose proof (keep_length (fst (produced l lc) :: snd (produced l lc))) as K. cbn [List.length] in K.
-  pose proof (produced_queue_short l lc). lia.
+  intros G. unfold item. pose proof (keep_length (fst (produced l lc) :: snd (produced l lc))) as K. cbn [List.length] in K.
+  destruct l as [line lab nm p|line lab nm p1 ms bn pn|line lab nm p1 es bn pn|line lab nm p1 rs os|b c|];
+    cbn [produced rawp snd phys List.length] in *; try lia.
+  - rewrite app_length, map_length in *. cbn [List.length] in *. pose proof (ecoms_length es (S (S lc))). lia.
+  - cbv zeta in G. destruct G as [_ [_ [_ [_ [_ [_ [_ [_ [_ [_ [_ [_ [_ [_ LO]]]]]]]]]]]]]].
+    rewrite map_length in K. cbn [List.concat]. rewrite app_nil_r. lia.
+Qed.
+
+Lemma items_length : forall ls lc, Forall good ls ->
+  List.length (items ls lc) <= List.length (List.concat (flat_map phys ls)) + List.length (flat_map phys ls).
+Proof.
+  induction ls as [|l r IH]; intros lc G; [cbn; lia|]. inversion G as [|x y Gl Gr]; subst.
+  cbn [items flat_map]. rewrite concat_app, !app_length.
+  specialize (IH (lc + List.length (phys l)) Gr). pose proof (item_length l lc Gl). lia.
 Qed.
 
 Lemma end_count_total ls lc : end_count ls lc = lc + List.length (flat_map phys ls).
@@ -497,12 +585,12 @@ Proof.
   intros G. unfold read_source.
   change (rst0 (flat_map phys ls) true false ign) with (st ign (flat_map phys ls) 0 []).
   rewrite (read_all_layouts ign _ ls [] 0 (Forall_nil _) G); [reflexivity|].
-  cbn [keep filter app]. pose proof (items_length ign ls 0). lia.
+  cbn [keep filter app]. pose proof (items_length ign ls 0 G). lia.
 Qed.
 
 (* ---- comments: kept in place, or ignored without effect *)
 Definition is_stmt (l : lay) : bool :=
-  match l with LOne _ _ _ _ | LCont _ _ _ _ _ _ _ | LContC _ _ _ _ _ _ _ => true | _ => false end.
+  match l with LCom _ _ | LBlank => false | _ => true end.
 Definition stmt_texts (its : list ritem) : list (text * option N * option text) :=
   flat_map (fun it => match it with RLine t lab nm _ _ => [(t, lab, nm)] | _ => [] end) its.
 Definition is_comment (it : ritem) : bool := match it with RComment _ _ _ _ => true | _ => false end.
@@ -537,6 +625,8 @@ Lemma stmt_texts_comments l : Forall (fun it => is_comment it = true) l -> stmt_
 Proof. induction 1 as [|x r H F IH]; [reflexivity|]. destruct x; try discriminate. exact IH. Qed.
 Lemma ecoms_comments es lc : Forall (fun it => is_comment it = true) (ecoms es lc).
 Proof. revert lc. induction es as [|e r IH]; intros lc; [constructor|]. destruct e; cbn [ecoms]; try apply IH. constructor; [reflexivity|apply IH]. Qed.
+Lemma stmt_texts_others a b a' b' os : stmt_texts (map (mk_other a b) os) = stmt_texts (map (mk_other a' b') os).
+Proof. unfold stmt_texts. induction os as [|o r IH]; [reflexivity|]. cbn [map flat_map mk_other app]. f_equal. exact IH. Qed.
 
 Lemma comments_kept : forall ls lc, comment_items (items false ls lc) = comments_of ls lc.
 Proof.
@@ -567,17 +657,20 @@ Lemma stmt_texts_items ign1 ign2 : forall ls lc lc',
 Proof.
   induction ls as [|l r IH]; intros lc lc'; [reflexivity|].
   cbn [items filter]. rewrite stmt_texts_app. unfold item. rewrite stmt_texts_keep.
-  destruct l as [line lab nm p|line lab nm p1 ms bn pn|line lab nm p1 es bn pn|b c|]; cbn [is_stmt map].
-  - cbn [items]. rewrite stmt_texts_app. unfold item. rewrite stmt_texts_keep. cbn [produced fst snd strip_comments].
+  destruct l as [line lab nm p|line lab nm p1 ms bn pn|line lab nm p1 es bn pn|line lab nm p1 rs os|b c|]; cbn [is_stmt map].
+  - cbn [items]. rewrite stmt_texts_app. unfold item. rewrite stmt_texts_keep. cbn [produced rawp fst snd strip_comments].
     cbn [stmt_texts flat_map app]. f_equal. apply IH.
-  - cbn [items]. rewrite stmt_texts_app. unfold item. rewrite stmt_texts_keep. cbn [produced fst snd strip_comments].
+  - cbn [items]. rewrite stmt_texts_app. unfold item. rewrite stmt_texts_keep. cbn [produced rawp fst snd strip_comments].
     cbn [stmt_texts flat_map app]. f_equal. apply IH.
-  - cbn [items]. rewrite stmt_texts_app. unfold item. rewrite stmt_texts_keep. cbn [produced fst snd strip_comments].
+  - cbn [items]. rewrite stmt_texts_app. unfold item. rewrite stmt_texts_keep. cbn [produced rawp fst snd strip_comments].
     change (stmt_texts (?a :: ?q)) with (stmt_texts [a] ++ stmt_texts q).
     rewrite !(stmt_texts_comments _ (ecoms_comments _ _)), !app_nil_r. cbn [stmt_texts flat_map app].
     rewrite etext_filter. f_equal. apply IH.
-  - cbn [produced fst snd stmt_texts flat_map app]. apply IH.
-  - cbn [produced fst snd stmt_texts flat_map app]. apply IH.
+  - cbn [items]. rewrite stmt_texts_app. unfold item. rewrite stmt_texts_keep. cbn [produced fst snd strip_comments].
+    change (stmt_texts (?a :: ?q)) with (stmt_texts [a] ++ stmt_texts q).
+    rewrite (stmt_texts_others (S lc) (S lc) (S lc') (S lc') os). cbn [stmt_texts flat_map app]. f_equal. f_equal. apply IH.
+  - cbn [produced rawp fst snd stmt_texts flat_map app]. apply IH.
+  - cbn [produced rawp fst snd stmt_texts flat_map app]. apply IH.
 Qed.
 
 Theorem read_comments_kept ls : Forall good ls ->
